@@ -420,6 +420,30 @@ def observe_grid(gb, g, h):
             'ne': tok(lambda: g != h), 'rne': tok(lambda: h != g)}
 
 
+def touched_copy(gb, ag):
+    """a faithful copy reached through a history: every metadata tag is stored again where it already is (by index and
+    relative to its neighbours), every row is replaced by itself"""
+    h0 = gb.build(ag)
+    if type(h0) is not gb.hs.Grid:
+        return h0
+    # the constructor copy (column metadata become MetadataObjects)
+    h = gb.hs.Grid(version='3.0', metadata=h0.metadata, columns=[(c, list(h0.column[c].items())) for c in h0.column.keys()])
+    h.extend(list(h0))
+    for m in [h.metadata] + [h.column[c] for c in h.column.keys()]:
+        if not hasattr(m, 'add_item'):
+            continue
+        keys = list(m.keys())
+        for i, k in enumerate(keys):
+            m.add_item(k, m[k], index=i)
+            if i > 0:
+                m.add_item(k, m[k], after=True, pos_key=keys[i - 1])
+            if i + 1 < len(keys):
+                m.add_item(k, m[k], pos_key=keys[i + 1])
+    for i in range(len(h)):
+        h[i] = h[i]
+    return h
+
+
 def grid_cases(hs, gb, edges):
     """From TLC's mutation edges: (label, abstract g, abstract h, event).  Faithful copies of every
     distinct base grid are added (independent rebuild, deepcopy, the object itself, round trips)."""
@@ -446,7 +470,7 @@ def grid_cases(hs, gb, edges):
     for key in sorted(bases):
         ag = bases[key]
         g = gb.build(ag)
-        variants = [('self', lambda: g), ('twin', lambda: gb.build(ag, omit_null=True)),
+        variants = [('self', lambda: g), ('twin', lambda: gb.build(ag, omit_null=True)), ('touched', lambda: touched_copy(gb, ag)),
                     ('deepcopy', lambda: copy.deepcopy(g)),
                     ('zinc', lambda: hs.parse(hs.dump(g, mode=hs.MODE_ZINC), mode=hs.MODE_ZINC)),
                     ('json', lambda: hs.parse(hs.dump(g, mode=hs.MODE_JSON), mode=hs.MODE_JSON))]
@@ -794,6 +818,7 @@ def replay(path):
             mk = {'mutant': lambda: gb.build(c['h']), 'mutant_sparse': lambda: gb.build(c['h'], omit_null=True),
                   'self': lambda: g,
                   'twin': lambda: gb.build(c['g'], omit_null=True), 'deepcopy': lambda: copy.deepcopy(g),
+                  'touched': lambda: touched_copy(gb, c['g']),
                   'zinc': lambda: hs.parse(hs.dump(g, mode=hs.MODE_ZINC), mode=hs.MODE_ZINC),
                   'json': lambda: hs.parse(hs.dump(g, mode=hs.MODE_JSON), mode=hs.MODE_JSON)}[c['variant']]
             ev = observe_grid(gb, g, mk())
